@@ -2,11 +2,15 @@
 import re
 
 CONFIG = {
-    "manifest": {'level_text': 'Coq theorems (closed under the global context), generic in the element payload: the recursive collection of Cell::get_* / Reference::get_* with apply_repetitions = true equals the denotation of the cell (own shapes plus, recursively, every referenced cell mapped by the reference placement and each repetition offset) as a multiset, for any acyclic environment with the depth fuel bound proved; depth limits cut the denotation at exactly that level; tag filters are list filters; flatten preserves the denotation and leaves no cell references; a two-level hierarchy equals explicit composition of the affine maps. The model runs, extracted, against every get_* variant before and after flatten on generated hierarchies with all element kinds and repetition kinds; copies are checked for independence by mutation.', 'level_note': "With apply_repetitions = false the repetition vectors of collected elements are not transformed by the reference (get_unapplied_refuted, flatten_unapplied_refuted): recorded as a known finding. 'Copies are independent of their source' is an aliasing statement checked at run time only. Outlines of paths are taken from to_polygons in the path's home cell (C07/C08 decide them).", 'technique': 'Coq proofs of the hierarchy-collection recursion against a denotational semantics + extracted-model differential run'},
+    "manifest": {'level_text': 'Coq theorems (closed under the global context), generic in the element payload: the recursive collection of Cell::get_* / Reference::get_* with apply_repetitions = true equals the denotation of the cell (own shapes plus, recursively, every referenced cell mapped by the reference placement and each repetition offset) as a multiset, for any acyclic environment with the depth fuel bound proved; depth limits cut the denotation at exactly that level; tag filters are list filters; flatten preserves the denotation and leaves no cell references; a two-level hierarchy equals explicit composition of the affine maps. The model runs, extracted, against every get_* variant before and after flatten on generated hierarchies with all element kinds and repetition kinds; copies are checked for independence by mutation.', 'level_note': "With apply_repetitions = false the repetition vectors of collected elements are not transformed by the reference (get_unapplied_refuted, flatten_unapplied_refuted): recorded as a known finding. 'Copies are independent of their source' is decided by the ownership model of unit c06_own (coq/Ownership.v, Properties_C06O.v: every deep copy / collector / apply_repetition result owns only buffers allocated by the call, equals its source up to buffer renaming, and stores through it leave every older object unchanged; wf preserved by every operation sequence), tied to the real pointers by the aliasing pattern of every call; one clause is refuted and recorded: RobustPath::copy_from shares the control-point arrays of general Bezier sections. Outlines of paths are taken from to_polygons in the path's home cell (C07/C08 decide them).", 'technique': 'Coq proofs of the hierarchy-collection recursion against a denotational semantics + extracted-model differential run'},
     "prop_file": "Properties_C06",
+    "extra_prop_files": ["Properties_C06O"],   # ownership model: copies are fresh, equal in shape, independent (Ownership.v)
     "units": [
         {"extract_file": "Extract_C06", "extracted": ["c06_hierarchy"], "driver": "c06_hierarchy",
          "harness": "c06_hierarchy"},
+        # aliasing pattern of real copy / collect / apply_repetition results against the heap model; mutate-the-copy oracle
+        {"harness": "c06_own", "driver": "c06_own", "extracted": ["c06_own"], "extract_file": "Extract_C06O",
+         "module": "checks.c06_own", "asan": "thorough", "thorough_seeds": 1},
     ],
     "rule": ("cases: the probe behind F8 first, then seeded hierarchies of 2-5 cells / 2-4 levels (every cell references the next, "
              "others at random: shared children; now and then a reference by name to a missing cell) holding polygons, FlexPaths "
